@@ -1,5 +1,6 @@
 import Ysgo.Generated.NumFacts
 import Ysgo.Model.Core
+import Ysgo.Lemmas.NoPanic
 /-!
 # C06/C09 — translated facts: the guards of the checked random built-ins, regenerated from the source on every run
 
@@ -73,5 +74,129 @@ theorem builtin_dice_guarded (vis : Map Nat) (x : F64) (g : Rng.Src) :
 /-- non-vacuity: the guard refuses the span 2^63-1 (where `Intn(span+1)` would panic) and accepts an ordinary range -/
 example : modelRangeGuard 0 9223372036854775807 = true ∧ modelRangeGuard (-5) 5 = false ∧
     modelRangeGuard (-9223372036854775808) 9223372036854775807 = true := by decide
+
+end Ysgo.C09Facts
+
+/-! ### internal/rng: `radix`, `toRadix36`, the accumulation of `seedToInt64`, `IntBetween` -/
+namespace Ysgo.C09Facts
+open Ysgo
+set_option linter.unusedSimpArgs false
+
+abbrev rsrc := Generated.rngSrc
+
+theorem radix_is_36 : FE.run rsrc "radix" [] = some (FV.i 36) := by rfl
+
+theorem wrap64_small (z : Int) (h0 : -1000000000 ≤ z) (h1 : z < 1000000000) : Rng.wrap64 z = z :=
+  wrap64_id z (by unfold P63; omega) (by unfold P63; omega)
+
+theorem char_lt (c : Char) : c.toNat < 1114112 := by
+  have := c.valid
+  rcases this with h | ⟨_, h⟩
+  · show c.val.toNat < 1114112
+    have : c.val.toNat < 55296 := h
+    omega
+  · exact h
+
+/-- `toRadix36` on every rune: the digit value of the model's `seedStep`, or an error -/
+theorem toRadix36_is_model (c : Char) :
+    FE.run rsrc "toRadix36" [.i c.toNat] =
+      (if '0' ≤ c ∧ c ≤ '9' then some (FV.i ((c.toNat : Int) - 48))
+       else if 'a' ≤ c ∧ c ≤ 'z' then some (FV.i ((c.toNat : Int) - 97 + 10))
+       else some FV.err) := by
+  have hc := char_lt c
+  have e0 : ('0' ≤ c) ↔ (48 : Int) ≤ c.toNat := by
+    constructor
+    · intro h; have : 48 ≤ c.toNat := h; omega
+    · intro h; have : 48 ≤ c.toNat := by omega
+      exact this
+  have e9 : (c ≤ '9') ↔ (c.toNat : Int) ≤ 57 := by
+    constructor
+    · intro h; have : c.toNat ≤ 57 := h; omega
+    · intro h; have : c.toNat ≤ 57 := by omega
+      exact this
+  have ea : ('a' ≤ c) ↔ (97 : Int) ≤ c.toNat := by
+    constructor
+    · intro h; have : 97 ≤ c.toNat := h; omega
+    · intro h; have : 97 ≤ c.toNat := by omega
+      exact this
+  have ez : (c ≤ 'z') ↔ (c.toNat : Int) ≤ 122 := by
+    constructor
+    · intro h; have : c.toNat ≤ 122 := h; omega
+    · intro h; have : c.toNat ≤ 122 := by omega
+      exact this
+  simp only [e0, e9, ea, ez]
+  have w1 : Rng.wrap64 ((c.toNat : Int) - 48) = (c.toNat : Int) - 48 := wrap64_small _ (by omega) (by omega)
+  have w2 : Rng.wrap64 ((c.toNat : Int) - 97) = (c.toNat : Int) - 97 := wrap64_small _ (by omega) (by omega)
+  have w3 : Rng.wrap64 ((c.toNat : Int) - 97 + 10) = (c.toNat : Int) - 97 + 10 := wrap64_small _ (by omega) (by omega)
+  have k1 : Rng.wrap64 9 = 9 := by decide
+  have k2 : Rng.wrap64 (9 + 1) = 10 := by decide
+  by_cases h1 : (48 : Int) ≤ c.toNat
+  · by_cases h2 : (c.toNat : Int) ≤ 57
+    · simp [FE.run, FE.step, FE.lookupDef, rsrc, Generated.rngSrc, FE.bindParams, FE.eval, FE.lookupVar, FE.cmpOp, FE.arith,
+        FE.convert, List.find?, h1, h2, w1]
+    · by_cases h4 : (97 : Int) ≤ c.toNat
+      · by_cases h5 : (c.toNat : Int) ≤ 122
+        · simp [FE.run, FE.step, FE.lookupDef, rsrc, Generated.rngSrc, FE.bindParams, FE.eval, FE.lookupVar, FE.cmpOp, FE.arith,
+            FE.convert, List.find?, h1, h2, h4, h5, w2, k1, k2]
+          exact w3
+        · simp [FE.run, FE.step, FE.lookupDef, rsrc, Generated.rngSrc, FE.bindParams, FE.eval, FE.lookupVar, FE.cmpOp, FE.arith,
+            FE.convert, List.find?, h1, h2, h4, h5]
+      · simp [FE.run, FE.step, FE.lookupDef, rsrc, Generated.rngSrc, FE.bindParams, FE.eval, FE.lookupVar, FE.cmpOp, FE.arith,
+          FE.convert, List.find?, h1, h2, h4]
+  · have h2 : ¬ ((97 : Int) ≤ c.toNat) := by omega
+    simp [FE.run, FE.step, FE.lookupDef, rsrc, Generated.rngSrc, FE.bindParams, FE.eval, FE.lookupVar, FE.cmpOp, FE.arith,
+      FE.convert, List.find?, h1, h2]
+
+/-- `wrap64` absorbs inner wraps of summands and factors (arithmetic modulo 2^64) -/
+theorem wrap64_add_left (a b : Int) : Rng.wrap64 (Rng.wrap64 a + b) = Rng.wrap64 (a + b) := by
+  unfold Rng.wrap64 P64 P63
+  simp only
+  split <;> split <;> split <;> omega
+
+theorem wrap64_add_right (a b : Int) : Rng.wrap64 (a + Rng.wrap64 b) = Rng.wrap64 (a + b) := by
+  rw [Int.add_comm, wrap64_add_left, Int.add_comm]
+
+/-- the accumulation step of `seedToInt64` is `wrap64 (36·result + v)` -/
+theorem seed_step_is_model (r v : Int) :
+    FE.run rsrc "seedToInt64.step" [.i r, .i v] = some (FV.i (Rng.wrap64 (36 * r + v))) := by
+  have k : Rng.wrap64 (Rng.wrap64 (Rng.wrap64 (Rng.wrap64 (57 - 48) + 122) - 97) + 2) = 36 := by decide
+  simp [FE.run, FE.step, FE.lookupDef, rsrc, Generated.rngSrc, FE.bindParams, FE.eval, FE.lookupVar, FE.arith, List.find?]
+  have k' : Rng.wrap64 (Rng.wrap64 (Rng.wrap64 (Rng.wrap64 9 + 122) - 97) + 2) = 36 := by decide
+  rw [k', wrap64_add_left]
+
+/-- the translated `toRadix36` + step, composed, are the model's `seedStep` -/
+theorem seedStep_is_translated (r : Int) (c : Char) :
+    Rng.seedStep (some r) c =
+      (match FE.run rsrc "toRadix36" [.i c.toNat] with
+       | some (.i v) => (match FE.run rsrc "seedToInt64.step" [.i r, .i v] with | some (.i x) => some x | _ => none)
+       | _ => none) := by
+  rw [toRadix36_is_model]
+  unfold Rng.seedStep
+  by_cases h1 : '0' ≤ c ∧ c ≤ '9'
+  · simp only [h1, and_self, if_true, seed_step_is_model]
+  · simp only [h1, if_false]
+    by_cases h2 : 'a' ≤ c ∧ c ≤ 'z'
+    · simp only [h2, and_self, if_true, seed_step_is_model]
+    · simp only [h2, if_false]
+
+/-- `IntBetween` is `lowerBound + Intn(upperBound - lowerBound + 1)` in int64 arithmetic — exactly the composition the
+model's `Rng.intBetween` applies to its model of `Intn` -/
+theorem intBetween_is_model (user : String → List FV → Option FV) (lo hi v : Int)
+    (hu : user "rng.source.Intn" [.i (Rng.wrap64 (hi - lo + 1))] = some (.i v)) :
+    FE.eval user [("lowerBound", .i lo), ("upperBound", .i hi)]
+        (match FE.lookupDef rsrc "IntBetween" with | some d => d.2 | none => .unsupported "missing") =
+      some (FV.i (Rng.wrap64 (lo + v))) := by
+  have hdef : (match FE.lookupDef rsrc "IntBetween" with | some d => d.2 | none => FE.unsupported "missing") =
+      FE.bin "+" (FE.var "lowerBound")
+        (FE.call1 "rng.source.Intn" (FE.bin "+" (FE.bin "-" (FE.var "upperBound") (FE.var "lowerBound")) (FE.lit 1))) := rfl
+  rw [hdef]
+  have harg : FE.eval user [("lowerBound", FV.i lo), ("upperBound", FV.i hi)]
+      (FE.bin "+" (FE.bin "-" (FE.var "upperBound") (FE.var "lowerBound")) (FE.lit 1)) = some (FV.i (Rng.wrap64 (hi - lo + 1))) := by
+    simp [FE.eval, FE.lookupVar, FE.arith, List.find?, wrap64_add_left]
+  have hlo : FE.eval user [("lowerBound", FV.i lo), ("upperBound", FV.i hi)] (FE.var "lowerBound") = some (FV.i lo) := by
+    simp [FE.eval, FE.lookupVar, List.find?]
+  have hprim : FE.prim1 "rng.source.Intn" (FV.i (Rng.wrap64 (hi - lo + 1))) = none := rfl
+  rw [FE.eval, hlo, FE.eval, harg]
+  simp only [hprim, hu, FE.arith]
 
 end Ysgo.C09Facts
